@@ -479,6 +479,12 @@ func ruleAxesPreserved(c *Ctx, prop string) {
 			c.undecided("R9", key, c.pos(apply.Pos()), name+".Apply no longer calls gorgonia's Max/Min: unrecognised factoring")
 			continue
 		}
+		// the reduction is the operator's own: ReduceMax -> Max, ReduceMin -> Min
+		if nm, _ := tensorMethod(red); "Reduce"+nm != name {
+			c.violate("R9", "R9e:"+name+":kernel", c.pos(red.Pos()), name+" reduces with gorgonia's "+nm+"(): the sibling operator's reduction")
+		} else {
+			c.discharge("R9", "R9e:"+name+":kernel", c.pos(red.Pos()), name+" reduces with "+nm+"()")
+		}
 		args := red.Common().Args
 		s := args[len(args)-1]
 		ok, why := false, "the axes list handed to the reduction is not built with one entry per requested axis"
@@ -1493,4 +1499,40 @@ func ruleConvPadOrder(c *Ctx, prop string) {
 		bad = fmt.Sprintf("%d padding concatenations found (2 expected: begin and end)", n)
 	}
 	c.decide(bad == "", "R11", key, site, "zeros(pads[i]) ++ x ++ zeros(pads[i+n]) on axis 2+i", bad)
+}
+
+// ruleArgMaxKernel: ArgMax reduces inputs[0] with gorgonia's Argmax (not Argmin / Max) along the normalised axis.
+func ruleArgMaxKernel(c *Ctx, prop string) {
+	oi := c.opByName("ArgMax")
+	if oi == nil {
+		return
+	}
+	apply := oi.methods["Apply"]
+	key := "R9e:ArgMax:kernel"
+	var found *ssa.Call
+	var names []string
+	for _, b := range apply.Blocks {
+		for _, in := range b.Instrs {
+			cl, ok := in.(*ssa.Call)
+			if !ok {
+				continue
+			}
+			o := calleeObj(cl)
+			if o == nil || o.Pkg() == nil || o.Pkg().Path() != pkgTensor {
+				continue
+			}
+			if strings.HasPrefix(o.Name(), "Arg") || o.Name() == "Max" || o.Name() == "Min" {
+				names = append(names, o.Name())
+				if o.Name() == "Argmax" {
+					found = cl
+				}
+			}
+		}
+	}
+	ok := found != nil && len(names) == 1 && sameInputLoad(found.Common().Args[0], apply.Params[1], 0)
+	site := c.pos(apply.Pos())
+	if found != nil {
+		site = c.pos(found.Pos())
+	}
+	c.decide(ok, "R9", key, site, "ArgMax = tensor.Argmax(inputs[0], axis)", "ArgMax does not reduce inputs[0] with gorgonia's Argmax only (found: "+strings.Join(names, ", ")+")")
 }
